@@ -177,6 +177,63 @@ PROGRAMS = {
             dict(name="g5", deps={"a", "inner"}, fail=lambda v: v["a"] + v["inner"]["v"] > 6, errs=[((), "g5")]),
         ],
     ),
+    # round 4: two helpers sharing a third one (diamond in the call graph), each used alone
+    # by a later validator; mutually recursive helpers; a helper whose callee is overridden
+    "shared": prog(
+        "Vs",
+        [F("x", INT), F("y", INT, default=V("0")), F("z", INT, default=V("0"))],
+        "def h(self):\n    return self.x\n@property\ndef p(self):\n    return self.h() + self.y\n"
+        "def q(self):\n    return self.h() - self.z\n"
+        + vsrc("s1", "self.p + self.q() > 10")
+        + vsrc("s2", "self.q() > 4", "yield")
+        + vsrc("s3", "self.p < -4"),
+        [
+            dict(name="s1", deps={"x", "y", "z"}, fail=lambda v: 2 * v["x"] + v["y"] - v["z"] > 10, errs=[((), "s1")]),
+            dict(name="s2", deps={"x", "z"}, fail=lambda v: v["x"] - v["z"] > 4, errs=[((), "s2")]),
+            dict(name="s3", deps={"x", "y"}, fail=lambda v: v["x"] + v["y"] < -4, errs=[((), "s3")]),
+        ],
+    ),
+    "mutual": prog(
+        "Vu",
+        [F("x", INT, default=V("0")), F("y", INT, default=V("0"))],
+        "def ma(self, n=1):\n    return self.x if n <= 0 else self.mb(n - 1)\n"
+        "def mb(self, n=1):\n    return self.y if n <= 0 else self.ma(n - 1)\n"
+        + vsrc("u1", "self.ma() > 5")
+        + vsrc("u2", "self.mb() > 5"),
+        [
+            dict(name="u1", deps={"x", "y"}, fail=lambda v: v["y"] > 5, errs=[((), "u1")]),
+            dict(name="u2", deps={"x", "y"}, fail=lambda v: v["x"] > 5, errs=[((), "u2")]),
+        ],
+    ),
+    # the base validator only *mentions* helper() (never executed), so that the base-class
+    # analysis of helper -> leaf is what a function-keyed cache would hand to the subclass
+    "override": prog(
+        "Vo",
+        [F("a", INT, default=V("0")), F("b", INT, default=V("0"))],
+        "def leaf(self):\n    return self.b\n" + vsrc("o2", "self.helper() > 5"),
+        [
+            dict(name="o2", deps={"b"}, fail=lambda v: v["b"] > 5, errs=[((), "o2")]),
+            dict(name="o1", deps={"a"}, fail=lambda v: v["a"] > 5, errs=[((), "o1")]),
+        ],
+        pre="@dataclass\nclass OBase:\n    a: int = 0\n    def leaf(self):\n        return self.a\n"
+        "    def helper(self):\n        return self.leaf()\n"
+        + "\n".join("    " + ln for ln in vsrc("o1", "(self.a > 5) if True else self.helper()").splitlines())
+        + "\n",
+        bases="OBase",
+    ),
+    # yielded paths that are falsy: index 0, the empty-string key
+    "falsy": prog(
+        "Vz",
+        [F("a", INT), F("b", INT, default=V("0"))],
+        vsrc("z1", "self.a > 2", "yield", path="0")
+        + vsrc("z2", "self.b > 2", "yield", path="''")
+        + vsrc("z3", "self.b < -2", "yield", path="('', 0)"),
+        [
+            dict(name="z1", deps={"a"}, fail=lambda v: v["a"] > 2, errs=[((0,), "z1")]),
+            dict(name="z2", deps={"b"}, fail=lambda v: v["b"] > 2, errs=[(("",), "z2")]),
+            dict(name="z3", deps={"b"}, fail=lambda v: v["b"] < -2, errs=[(("", 0), "z3")]),
+        ],
+    ),
 }
 
 
